@@ -30,12 +30,12 @@ fn cfgs(seed: u64) -> Vec<(usize, ChunkSize, String)> {
     ]
 }
 
-mod probes;
+mod hugechunk;
 
 fn main() {
     let a: Vec<String> = std::env::args().collect();
-    if a.get(1).map(|s| s == "probe").unwrap_or(false) {
-        probes::main(&a[2..]);
+    if a.get(1).map(|s| s == "hugechunk").unwrap_or(false) {
+        hugechunk::main(&a[2..]);
         return;
     }
     let prop = a.get(1).cloned().unwrap_or_else(|| "C01".into());
